@@ -4,25 +4,25 @@ import "fmt"
 
 // Protocol feature thresholds (Core/ProtocolDefines.h), restricted to what ch-go models.
 const (
-	RevTempTables       = 50264
-	RevBlockInfo        = 51903
-	RevTimezone         = 54058
-	RevQuotaKeyInInfo   = 54060
-	RevDisplayName      = 54372
-	RevVersionPatch     = 54401
-	RevServerLogs       = 54406
-	RevClientWriteInfo  = 54420
-	RevSettingsAsStr    = 54429
-	RevInterserverSecret = 54441
-	RevOpenTelemetry    = 54442
-	RevDistributedDepth = 54448
-	RevQueryStartTime   = 54449
-	RevProfileEvents    = 54451
-	RevParallelReplicas = 54453
+	RevTempTables          = 50264
+	RevBlockInfo           = 51903
+	RevTimezone            = 54058
+	RevQuotaKeyInInfo      = 54060
+	RevDisplayName         = 54372
+	RevVersionPatch        = 54401
+	RevServerLogs          = 54406
+	RevClientWriteInfo     = 54420
+	RevSettingsAsStr       = 54429
+	RevInterserverSecret   = 54441
+	RevOpenTelemetry       = 54442
+	RevDistributedDepth    = 54448
+	RevQueryStartTime      = 54449
+	RevProfileEvents       = 54451
+	RevParallelReplicas    = 54453
 	RevCustomSerialization = 54454
-	RevQuotaKeyAddendum = 54458
-	RevParameters       = 54459
-	RevServerQueryTime  = 54460
+	RevQuotaKeyAddendum    = 54458
+	RevParameters          = 54459
+	RevServerQueryTime     = 54460
 )
 
 // Thresholds lists every threshold above, for revision-representative generation.
